@@ -46,12 +46,18 @@ fn check<const B: usize>(f: fn(&[u8; B], &[u8; B]) -> u32) {
 
 // @ob id=dist_body.select.12 props=C02,C07,C18 rows=plain,simd quick=plain quick.C07=plain,simd kind=HC+stub fn=compare::dist_body::distance_12 domain="all body pairs" replay=none
 #[kani::proof]
+#[kani::stub(alloc::alloc::alloc, verif_support::no_alloc)]
+#[kani::stub(alloc::alloc::alloc_zeroed, verif_support::no_alloc)]
+#[kani::stub(alloc::alloc::realloc, verif_support::no_realloc)]
 #[kani::stub(super::pseudo_simd_64::distance_12, m12)]
 #[kani::stub(super::pseudo_simd_32::distance_12, m12)]
 fn ob_select_12() { check::<12>(super::distance_12) }
 
 // @ob id=dist_body.select.32 props=C02,C07,C18 rows=plain,simd quick=plain quick.C07=plain,simd kind=HC+stub fn=compare::dist_body::distance_32 domain="all body pairs x all CPU feature masks (simd row: OnceLock executed single-threaded)" replay=none
 #[kani::proof]
+#[kani::stub(alloc::alloc::alloc, verif_support::no_alloc)]
+#[kani::stub(alloc::alloc::alloc_zeroed, verif_support::no_alloc)]
+#[kani::stub(alloc::alloc::realloc, verif_support::no_realloc)]
 #[kani::stub(super::pseudo_simd_64::distance_32, m32)]
 #[kani::stub(super::pseudo_simd_32::distance_32, m32)]
 #[cfg_attr(all(feature = "simd-per-arch", feature = "opt-simd-body-comparison", feature = "detect-features"), kani::stub(std_detect::detect::cache::test, verif_support::model_detect_test))]
@@ -62,6 +68,9 @@ fn ob_select_32() { check::<32>(super::distance_32) }
 
 // @ob id=dist_body.select.64 props=C02,C07,C18 rows=plain,simd quick=plain quick.C07=plain,simd kind=HC+stub fn=compare::dist_body::distance_64 domain="all body pairs x all CPU feature masks" replay=none
 #[kani::proof]
+#[kani::stub(alloc::alloc::alloc, verif_support::no_alloc)]
+#[kani::stub(alloc::alloc::alloc_zeroed, verif_support::no_alloc)]
+#[kani::stub(alloc::alloc::realloc, verif_support::no_realloc)]
 #[kani::stub(super::pseudo_simd_64::distance_64, m64)]
 #[kani::stub(super::pseudo_simd_32::distance_64, m64)]
 #[cfg_attr(all(feature = "simd-per-arch", feature = "opt-simd-body-comparison", feature = "detect-features"), kani::stub(std_detect::detect::cache::test, verif_support::model_detect_test))]
